@@ -941,10 +941,17 @@ class ReadDTCInformation(BaseService):
             if response.service_data.dtc_format not in [Dtc.Format.SAE_J2012_DA_DTCFormat_04, Dtc.Format.SAE_J1939_73]:
                 raise InvalidResponseException(response, "DTCFormatIdentifier returned by the server is not one of the following: SAE_J2012-DA_DTCFormat_04 (4), SAE_J1939-73_DTCFormat(2). Got 0x%02x" % response.service_data.dtc_format)
 
-            if len(remaining_bytes) % 5 != 0:
-                raise InvalidResponseException(response, 'Incomplete response from server. Remaining bytes must be a multiple of 5')
+            partial_dtc_length = len(remaining_bytes) % 5
+            if partial_dtc_length != 0:
+                if tolerate_zero_padding and remaining_bytes[-partial_dtc_length:] == b'\x00' * partial_dtc_length:
+                    remaining_bytes = remaining_bytes[:-partial_dtc_length]
+                else:
+                    raise InvalidResponseException(response, 'Incomplete response from server. Remaining bytes must be a multiple of 5')
 
             while remaining_bytes:
+                if remaining_bytes[0:5] == b'\x00' * 5 and ignore_all_zero_dtc:
+                    remaining_bytes = remaining_bytes[5:]
+                    continue
                 severity = remaining_bytes[0]
                 dtc = Dtc(struct.unpack('>L', b'\x00' + remaining_bytes[1:4])[0])
                 status_of_dtc = Dtc.Status.from_byte(remaining_bytes[4])
